@@ -41,13 +41,25 @@ type c07Ctx struct {
 	cur   *ssa.Parameter
 	utd   *ssa.Parameter
 	ds    *ssa.Parameter
+	// the rollback frame: the function that restores the template (upd itself or a helper it calls)
+	// with the roles seen from inside it, and the new object as upd sees it
+	tFn                   *ssa.Function
+	tCur, tUtd, tDs, tNew ssa.Value
+	tCall                 *ssa.Call // call of tFn in upd (nil when tFn == upd)
+	updNew                ssa.Value
 }
 
 // c07ParamFor returns the parameter of fn that, at every static call site, receives a value
 // accepted by match.
 func c07ParamFor(fn *ssa.Function, reach map[*ssa.Function]bool, match func(ssa.Value) bool) *ssa.Parameter {
+	return c07ParamForD(fn, reach, match, 0)
+}
+
+// c07ParamForD: the parameter of fn that at every static call site receives a value accepted by
+// match, directly or as the caller's own parameter with that role (helpers of helpers).
+func c07ParamForD(fn *ssa.Function, reach map[*ssa.Function]bool, match func(ssa.Value) bool, depth int) *ssa.Parameter {
 	cs := callSitesOf(fn, reach)
-	if len(cs) == 0 {
+	if len(cs) == 0 || depth > 4 {
 		return nil
 	}
 	var found *ssa.Parameter
@@ -55,9 +67,17 @@ func c07ParamFor(fn *ssa.Function, reach map[*ssa.Function]bool, match func(ssa.
 		all := true
 		for _, c := range cs {
 			args := c.Common().Args
-			if i >= len(args) || !match(args[i]) {
+			if i >= len(args) {
 				all = false
+				continue
 			}
+			if match(args[i]) {
+				continue
+			}
+			if q, isP := stripConv(args[i]).(*ssa.Parameter); isP && q.Parent() != fn && c07ParamForD(q.Parent(), reach, match, depth+1) == q {
+				continue
+			}
+			all = false
 		}
 		if all {
 			if found != nil {
@@ -135,7 +155,71 @@ func runC07(r *Run) {
 
 func (c *c07Ctx) isFailedAtom(v ssa.Value) bool {
 	call, ok := v.(*ssa.Call)
-	return ok && calleeName(&call.Call) == pkgEDS+".IsCanaryDeploymentFailed" && len(call.Call.Args) == 1 && stripConv(call.Call.Args[0]) == ssa.Value(c.utd)
+	utd := ssa.Value(c.utd)
+	if c.tUtd != nil {
+		utd = c.tUtd
+	}
+	return ok && calleeName(&call.Call) == pkgEDS+".IsCanaryDeploymentFailed" && len(call.Call.Args) == 1 && stripConv(call.Call.Args[0]) == utd
+}
+
+// c07Frame locates the function that restores spec.template: the update function itself or a
+// repository function it calls, and translates the roles into that function's parameters.
+func c07Frame(c *c07Ctx) bool {
+	r := c.r
+	hasTmpl := func(g *ssa.Function) bool {
+		for _, st := range storesToFieldOf(g, pkgAPI, "ExtendedDaemonSetSpec", "Template") {
+			if _, path := accessPath(st.Addr); len(path) == 2 && path[0] == "Spec" {
+				return true
+			}
+		}
+		return false
+	}
+	if hasTmpl(c.upd) {
+		c.tFn, c.tCur, c.tUtd, c.tDs = c.upd, c.cur, c.utd, c.ds
+		return true
+	}
+	for _, ci := range callsIn(c.upd) {
+		call, isC := ci.(*ssa.Call)
+		if !isC {
+			continue
+		}
+		g := staticCallee(&call.Call)
+		if g == nil || !r.Prog.IsRuleSite(g) || !hasTmpl(g) {
+			continue
+		}
+		if c.tFn != nil {
+			r.Undecided("C07.R1", "store Spec.Template", r.Prog.Pos(call.Pos()), shortFunc(c.upd), "spec.template is restored in more than one callee")
+			return false
+		}
+		c.tFn, c.tCall = g, call
+		for i, a := range call.Call.Args {
+			if i >= len(g.Params) {
+				break
+			}
+			sa := stripConv(a)
+			switch {
+			case sa == ssa.Value(c.cur):
+				c.tCur = g.Params[i]
+			case sa == ssa.Value(c.utd):
+				c.tUtd = g.Params[i]
+			case sa == ssa.Value(c.ds):
+				c.tDs = g.Params[i]
+			default:
+				if cp, isCp := sa.(*ssa.Call); isCp && strings.HasSuffix(calleeName(&cp.Call), ".DeepCopy") && len(cp.Call.Args) == 1 && stripConv(cp.Call.Args[0]) == ssa.Value(c.ds) {
+					c.tNew, c.updNew = g.Params[i], sa
+				}
+			}
+		}
+	}
+	if c.tFn == nil {
+		r.Check("C07.R1", "store Spec.Template", r.Prog.Pos(c.upd.Pos()), shortFunc(c.upd), "a failed canary restores spec.template", false, "no store to <object>.Spec.Template in the update function or a function it calls")
+		return false
+	}
+	if c.tCur == nil || c.tUtd == nil || c.tDs == nil || c.tNew == nil {
+		r.Undecided("C07.R1", "store Spec.Template", r.Prog.Pos(c.tCall.Pos()), shortFunc(c.upd), "the function restoring the template does not receive the decision's result, the up-to-date replica set, the reconciled object and its copy")
+		return false
+	}
+	return true
 }
 
 type c07Write struct {
@@ -146,7 +230,10 @@ type c07Write struct {
 }
 
 func c07Rollback(c *c07Ctx) {
-	r, fn := c.r, c.upd
+	if !c07Frame(c) {
+		return
+	}
+	r, fn := c.r, c.tFn
 	fname := shortFunc(fn)
 	ff := computeFacts(fn)
 	failedFact := func(v ssa.Value, _ string) bool { return c.isFailedAtom(v) }
@@ -170,14 +257,20 @@ func c07Rollback(c *c07Ctx) {
 			ff.Holds(st.Block(), true, failedFact), "must-facts: "+shortSet(ff.At(st.Block())))
 		src, okS := singleRootWithSuffix(st.Val, "Spec", "Template")
 		r.Check("C07.R1", "store Spec.Template source", pos, fname, "the template restored is the one of the promotion decision's result (the active replica set)",
-			okS && src == ssa.Value(c.cur), "stored from "+describeVal(st.Val))
+			okS && src == c.tCur, "stored from "+describeVal(st.Val))
 	}
 	if len(tmplStores) == 0 {
 		r.Check("C07.R1", "store Spec.Template", r.Prog.Pos(fn.Pos()), fname, "a failed canary restores spec.template", false, "no store to <object>.Spec.Template")
 		return
 	}
-	if call, ok := newObj.(*ssa.Call); !ok || !strings.HasSuffix(calleeName(&call.Call), ".DeepCopy") || stripConv(call.Call.Args[0]) != ssa.Value(c.ds) {
-		r.Undecided("C07.R1", "new object", r.Prog.Pos(fn.Pos()), fname, "the object receiving the restored template is not a DeepCopy of the reconciled object")
+	if c.tFn == c.upd {
+		if call, ok := newObj.(*ssa.Call); !ok || !strings.HasSuffix(calleeName(&call.Call), ".DeepCopy") || stripConv(call.Call.Args[0]) != ssa.Value(c.ds) {
+			r.Undecided("C07.R1", "new object", r.Prog.Pos(fn.Pos()), fname, "the object receiving the restored template is not a DeepCopy of the reconciled object")
+			return
+		}
+		c.tNew, c.updNew = newObj, newObj
+	} else if newObj != c.tNew {
+		r.Undecided("C07.R1", "new object", r.Prog.Pos(fn.Pos()), fname, "the object receiving the restored template is not the copy of the reconciled object handed in by the update function")
 		return
 	}
 	r.Check("C07.R2", "failed flag source", r.Prog.Pos(fn.Pos()), fname, "the failed flag is read from the up-to-date replica set parameter, not from the object being written",
@@ -219,7 +312,7 @@ func c07Rollback(c *c07Ctx) {
 			switch stripConv(a) {
 			case ssa.Value(c.ds):
 				hasDS = true
-			case newObj:
+			case c.updNew:
 				hasNew = true
 			}
 		}
@@ -358,6 +451,7 @@ func c07Rollback(c *c07Ctx) {
 	}
 	var delegations []delegation
 	nWritePaths := 0
+	// R1 on the failed paths of the function restoring the template
 	for _, p := range failedPaths {
 		desc := "path [" + c07PathDesc(p) + "]"
 		hasTmpl := false
@@ -369,6 +463,90 @@ func c07Rollback(c *c07Ctx) {
 		if !hasTmpl {
 			bad("failed paths restore the template", desc+" does not store spec.template")
 		}
+		if c.tFn != c.upd {
+			analyzeWrites(fn, newObj, p, desc, tmplStores) // node selection on failed paths
+		}
+	}
+	// R2 on the paths of the update function that a failed canary can take: the failed paths
+	// themselves, or — when the template is restored in a callee — the paths compatible with what
+	// that callee returns on its failed paths
+	wPaths := failedPaths
+	if c.tFn != c.upd {
+		updPaths, ku, okU := funcPaths(c.upd, 20000)
+		r.paths += len(updPaths)
+		if !okU {
+			r.Undecided("C07.R2", "rollback paths", r.Prog.Pos(c.upd.Pos()), shortFunc(c.upd), "path cap exceeded")
+			return
+		}
+		k = ku
+		type outcome struct {
+			b      map[int]bool
+			errNil map[int]bool
+		}
+		var outs []outcome
+		for _, hq := range failedPaths {
+			ret := returnOf(hq.Blocks[len(hq.Blocks)-1])
+			o := outcome{map[int]bool{}, map[int]bool{}}
+			for i, rv := range ret.Results {
+				v := hq.Resolve(rv)
+				if cb, isC := constBool(v); isC {
+					o.b[i] = cb
+				} else if rv.Type().String() == "error" {
+					if isNilConst(v) {
+						o.errNil[i] = true
+					} else if hq.Has(false, func(x ssa.Value, _ string) bool {
+						return isNilCompareOf(x, func(y ssa.Value) bool { return y == v })
+					}) {
+						o.errNil[i] = false
+					}
+				}
+			}
+			outs = append(outs, o)
+		}
+		resultVal := func(i int) ssa.Value {
+			if c.tFn.Signature.Results().Len() == 1 {
+				return c.tCall
+			}
+			for _, rf := range refs(c.tCall) {
+				if e, isE := rf.(*ssa.Extract); isE && e.Index == i {
+					return e
+				}
+			}
+			return nil
+		}
+		wPaths = nil
+		for _, p := range updPaths {
+			if !p.Contains(c.tCall.Block()) {
+				continue
+			}
+			compatible := false
+			for _, o := range outs {
+				okO := true
+				for i, b := range o.b {
+					if rv := resultVal(i); rv != nil && p.Facts.has(ku.key(rv), !b) {
+						okO = false
+					}
+				}
+				for i, isNil := range o.errNil {
+					rv := resultVal(i)
+					if rv != nil && p.Has(!isNil, func(x ssa.Value, _ string) bool {
+						return isNilCompareOf(x, func(y ssa.Value) bool { return y == rv })
+					}) {
+						okO = false
+					}
+				}
+				if okO {
+					compatible = true
+				}
+			}
+			if compatible {
+				wPaths = append(wPaths, p)
+			}
+		}
+		fn, newObj, tmplStores = c.upd, c.updNew, nil
+	}
+	for _, p := range wPaths {
+		desc := "path [" + c07PathDesc(p) + "]"
 		wrote := analyzeWrites(fn, newObj, p, desc, tmplStores)
 		// the writes may be delegated to a repository function that receives the new object
 		for _, b := range p.Blocks {
@@ -459,7 +637,7 @@ func c07Rollback(c *c07Ctx) {
 		r.Check(rule, n, r.Prog.Pos(fn.Pos()), fname, n+" (on every feasible path with failed=true)", res[n].ok, res[n].detail)
 	}
 	// the pruning relies on the canary-active predicate being false under failed: make it explicit
-	for _, ci := range callsIn(fn) {
+	for _, ci := range callsIn(c.tFn) {
 		call, isC := ci.(*ssa.Call)
 		if !isC {
 			continue
@@ -511,7 +689,7 @@ func c07PathDesc(p *Path) string {
 
 // c07StatusFunctions checks the functions called with &newObj.Status that store <status>.Canary.
 func c07StatusFunctions(c *c07Ctx, newObj ssa.Value) {
-	r, fn := c.r, c.upd
+	r, fn := c.r, c.tFn
 	n := 0
 	for _, ci := range callsIn(fn) {
 		call, isC := ci.(*ssa.Call)
@@ -593,24 +771,62 @@ func c07Cleanup(c *c07Ctx) {
 			continue
 		}
 		n++
-		c07DeleteSite(c, e)
+		// where is it decided that this object goes? at the Delete itself, or — collect-then-act —
+		// where the object was appended to the slice of candidates that a helper returned
+		obj := stripConv(e.Obj)
+		decided := false
+		if ps := pathsOf(obj); len(ps) == 1 && len(ps[0].fields) == 0 {
+			if ia, isIA := ps[0].root.(*ssa.IndexAddr); isIA {
+				var g *ssa.Function
+				var idx int
+				switch x := stripConv(ia.X).(type) {
+				case *ssa.Call:
+					g = staticCallee(&x.Call)
+				case *ssa.Extract:
+					if cc, isC := x.Tuple.(*ssa.Call); isC {
+						g, idx = staticCallee(&cc.Call), x.Index
+					}
+				}
+				if g != nil && r.Prog.IsRuleSite(g) {
+					for _, b := range g.Blocks {
+						ret := returnOf(b)
+						if ret == nil || idx >= len(ret.Results) {
+							continue
+						}
+						for _, ap := range appendCallsOf(ret.Results[idx]) {
+							elems, complete := varargElems(ap.Call.Args[1])
+							if !complete || len(elems) != 1 {
+								r.Undecided("C07.R4", "Delete(ExtendedDaemonSetReplicaSet)", r.Prog.Pos(ap.Pos()), shortFunc(g), "the candidates for deletion are not appended one by one")
+								decided = true
+								continue
+							}
+							decided = true
+							c07DeleteSite(c, g, ap, stripConv(elems[0]), r.Prog.Pos(ap.Pos()))
+						}
+					}
+				}
+			}
+		}
+		if !decided {
+			c07DeleteSite(c, e.Fn, e.Call.(*ssa.Call), obj, r.Prog.Pos(e.Call.Pos()))
+		}
 	}
 	if n == 0 {
 		r.Check("C07.R4", "Delete(ExtendedDaemonSetReplicaSet)", "-", "-", "replica sets are garbage-collected by the ExtendedDaemonSet reconciler", false, "no Delete effect found")
 	}
 }
 
-func c07DeleteSite(c *c07Ctx, e *Effect) {
-	r, fn := c.r, e.Fn
+// c07DeleteSite checks the place where a replica set is selected for deletion: the Delete call
+// itself, or the append to the list of candidates that is deleted afterwards.
+func c07DeleteSite(c *c07Ctx, fn *ssa.Function, call *ssa.Call, obj ssa.Value, pos string) {
+	r := c.r
 	fname := shortFunc(fn)
-	pos := r.Prog.Pos(e.Call.Pos())
 	cur := c07ParamFor(fn, c.reach, c.fromDecision)
 	utd := c07ParamFor(fn, c.reach, c.sameAsDecisionArg("upToDate"))
 	if cur == nil || utd == nil {
 		r.Undecided("C07.R4", "Delete(ExtendedDaemonSetReplicaSet)", pos, fname, "cannot find the parameters fed by the promotion decision's result and the up-to-date replica set")
 		return
 	}
-	call := e.Call.(*ssa.Call)
 	header := innermostLoopHeader(call.Block())
 	if header == nil {
 		r.Undecided("C07.R4", "Delete(ExtendedDaemonSetReplicaSet)", pos, fname, "the Delete is not inside a loop over the listed replica sets")
@@ -632,7 +848,6 @@ func c07DeleteSite(c *c07Ctx, e *Effect) {
 			}
 		}
 	}
-	obj := stripConv(e.Obj)
 	// element identity: the address &items[i]; a range copy `rs` is a local cell holding *(&items[i])
 	elemKey := func(root ssa.Value) string {
 		if a, isA := root.(*ssa.Alloc); isA {
@@ -966,17 +1181,20 @@ func c07FailedNotPromoted(r *Run, site *decisionSite) {
 		if unwrap(p.Resolve(ret.Results[0])) != ssa.Value(utd) {
 			continue
 		}
-		var notes []string
-		a := c05Classify(site, p, &notes)
-		if is(a.eqActive, true) || is(a.activeNil, true) || is(a.noCanary, true) || is(a.valid, true) {
-			continue
-		}
-		n++
-		if !is(a.failed, false) && okAll {
-			okAll = false
-			detail = "a path returns the up-to-date replica set without explicit validation and without failed=false: " + describeAtoms(a)
-			if len(notes) > 0 {
-				detail += "; " + strings.Join(notes, "; ")
+		// every alternative of the path (helpers of the decision expanded) must justify the promotion
+		for _, alt := range decisionAlternatives(r.Prog, p) {
+			var notes []string
+			a := classifyDecisionA(r.Prog, site, alt, &notes)
+			if is(a.eqActive, true) || is(a.activeNil, true) || is(a.noCanary, true) || is(a.valid, true) {
+				continue
+			}
+			n++
+			if !is(a.failed, false) && okAll {
+				okAll = false
+				detail = "a path returns the up-to-date replica set without explicit validation and without failed=false: " + describeAtoms(a)
+				if len(notes) > 0 {
+					detail += "; " + strings.Join(notes, "; ")
+				}
 			}
 		}
 	}
